@@ -9,6 +9,8 @@ CONSTANTS
   MaxCmds = 4
   Concurrent = FALSE
   AllowInstant = TRUE
+  AppendOnly = FALSE
+  AllowDamage = FALSE
   AllowCrash = FALSE
   AllowEarly = FALSE
   TickInPrune = TRUE
